@@ -2,7 +2,7 @@
 import itertools
 
 from vlib.core import Cond
-from vlib.props.pgen import gen_model, sfx, variants
+from vlib.props.pgen import XREGIONS, gen_model, sfx, variants
 
 HEAD = '''
 from vlib.h.pipe import *
@@ -80,9 +80,10 @@ def conditions(tier):
         t.append(("two_cuts_FGFGF_" + sfx((), ps), _g(n, S_FGFGF, ((2,), [(0, 0, 2), (1, 0, 0), (1, 0, 1)]), False, ps), n, 9000,
                   f"input F G F G F (forward), two cuts, three pieces regrouped into two painted Pretext scaffolds, piece strands {ps}"))
     for ps in ((1, 1, 1, 1), (1, -1, -1, 1)):
-        n = "l11_x_" + sfx((), ps)
-        t.append(("two_scaffolds_cross_joined_" + sfx((), ps), _g(n, [("S1", "FGF"), ("S2", "FF")], ((1, 1), [(0, 0, 0), (0, 1, 1), (1, 1, 0), (1, 0, 1)]), False, ps), n, 9000,
-                  f"inputs F G F and F F, one cut each, pieces cross-joined into two painted Pretext scaffolds, piece strands {ps}"))
+        for rk, rpre in XREGIONS:
+            n = f"l11_x_{rk}_" + sfx((), ps)
+            t.append((f"two_scaffolds_cross_joined_{rk}_" + sfx((), ps), _g(n, [("S1", "FGF"), ("S2", "FF")], ((1, 1), [(0, 0, 0), (0, 1, 1), (1, 1, 0), (1, 0, 1)]), False, ps, extra_pre=rpre), n, 3000,
+                      f"inputs F G F and F F, one cut each (cut rows {rk}; the six row combinations cover every cut position), pieces cross-joined into two painted Pretext scaffolds, piece strands {ps}"))
     src_t = HEAD + "".join(x[1] for x in t)
     for (n, _, fn, to, bound) in t:
         out.append(Cond(n, src_t, fn, to, bound, tier="thorough", replay="replay_model", encodes=ENC))
